@@ -80,7 +80,13 @@ def _emit(e, err):
             events.append(state_json(s, p, t if cfg["rule"] in ("STV", "IRV", "SequentialRCV") else -1))
     if err:
         events.append({"ev": "Error", "class": err})
-    t = {"cfg": cfg, "cands": cands, "prof0": bag_json(prof), "thr": int(e.threshold) if cfg["rule"] in ("STV", "IRV", "SequentialRCV") else -1,
+    vorder0 = []
+    if id(e) in E._VORDER:
+        orders = E._VORDER[id(e)]
+        vorder0 = orders[0]
+        for ev, o in zip(events, orders[1:]):
+            ev["vorder"] = o
+    t = {"vorder": vorder0, "cfg": cfg, "cands": cands, "prof0": bag_json(prof), "thr": int(e.threshold) if cfg["rule"] in ("STV", "IRV", "SequentialRCV") else -1,
          "round0": state_json(e.election_states[0], prof), "has_round0": True, "events": events,
          "test": os.environ.get("PYTEST_CURRENT_TEST", "")}
     if not in_arith_range(t):
@@ -119,5 +125,6 @@ def pytest_configure(config):
             if _depth[0] == 0:
                 del E._LOG[:]
                 del E._CREATED[:]
+                E._VORDER.clear()
 
     Election.__init__ = init
